@@ -102,8 +102,9 @@ def parseOp (ws : List String) : Option Op :=
   | _ => none
 
 /-! The pointer-level model (PtrModel.lean) of the two List and the two PoolList variables is run in lockstep: every op is
-    translated into heap-level `insert/remove/clear/sort` calls (composite ops — list insertion, copy,
-    assignment — into the sequence of `insert`s the C++ code performs; `swap` exchanges the two heaps).  After
+    translated into the heap-level `insert/remove/remove(value)/insert(pos, list)/clear/sort` calls the C++ code performs
+    (copy construction = `insert(end, list)` into a fresh heap, assignment = `clear` + `insert(end, list)`; `swap`
+    exchanges the two heaps).  After
     every op the chain, the values, the back links, the free list and the block count read off the heap must
     equal the chain model's; otherwise the observation line gets the token `ptr-diverges` (which the
     implementation never prints, so the correspondence fails). -/
@@ -126,9 +127,6 @@ def ptrRunOps (h : Ptr.PList) : List Ptr.POp → Option Ptr.PList
   | [] => some h
   | op :: ops => match Ptr.step h op with | some h' => ptrRunOps h' ops | none => none
 
-def insertsAt (k : Nat) (vs : List Int) : List Ptr.POp :=
-  (List.range vs.length).zip vs |>.map (fun (i, v) => Ptr.POp.insert (k + i) v)
-
 /-- heap-level calls performed by a List op (`none` = the op does not touch the heaps) -/
 def ptrOps (st : State) (op : Op) : Option (Nat × List Ptr.POp) :=
   let other (v : Nat) := (st.getL (1 - v)).vals
@@ -136,15 +134,15 @@ def ptrOps (st : State) (op : Op) : Option (Nat × List Ptr.POp) :=
   | .lappend v x => some (v, [.insert (st.getL v).size x])
   | .lprepend v x => some (v, [.insert 0 x])
   | .linsert v k x => some (v, [.insert k x])
-  | .linsertl v k => some (v, insertsAt k (other v))
-  | .lappendl v => some (v, insertsAt (st.getL v).size (other v))
-  | .lprependl v => some (v, insertsAt 0 (other v))
+  | .linsertl v k => some (v, [.insertList k (other v)])
+  | .lappendl v => some (v, [.insertList (st.getL v).size (other v)])
+  | .lprependl v => some (v, [.insertList 0 (other v)])
   | .lremove v k => some (v, [.remove k])
-  | .lremovev v x => some (v, if (st.getL v).findPos x ≠ (st.getL v).size then [.remove ((st.getL v).findPos x)] else [])
+  | .lremovev v x => some (v, [.removeValue x])
   | .lremoveFront v => some (v, [.remove 0])
   | .lremoveBack v => some (v, [.remove ((st.getL v).size - 1)])
   | .lclear v => some (v, [.clear])
-  | .lassign v => some (v, .clear :: insertsAt 0 (other v))
+  | .lassign v => some (v, [.clear, .insertList 0 (other v)])
   | .lsort v => some (v, [.sort])
   | .pappend v x => some (2 + v, [.insert (st.getP v).size x])
   | .premove v k => some (2 + v, [.remove k])
@@ -196,7 +194,7 @@ def ptrAdvance (pp : PtrPair) (before after : State) (op : Op) : PtrPair :=
     | .lswap v => (pp.set v (pp.get (1 - v))).set (1 - v) (pp.get v)
     | .pswap v => (pp.set (2 + v) (pp.get (2 + (1 - v)))).set (2 + (1 - v)) (pp.get (2 + v))
     | .lcopy v =>
-      match ptrRunOps Ptr.init (insertsAt 0 (before.getL (1 - v)).vals) with
+      match ptrRunOps Ptr.init [.insertList 0 (before.getL (1 - v)).vals] with
       | some h => pp.set v h
       | none => { pp with ok := false }
     | _ =>
